@@ -98,6 +98,28 @@ func c04Check(c C04Case, cx *h.Ctx) *h.Failure {
 	if !bytes.Equal(app, append(append([]byte(nil), prefix...), lib...)) {
 		return h.Failf("wkb/append", "AppendWKB(prefix) != prefix||AsBinary() for %s", model)
 	}
+	// ... also when the destination has spare capacity (exactly enough, one byte short, plenty): the prefix is
+	// untouched, the encoding follows it, and bytes of the backing array beyond the result are not written
+	for _, spare := range []int{len(lib), len(lib) - 1, len(lib) + 57} {
+		if spare < 0 {
+			continue
+		}
+		backing := make([]byte, len(prefix)+spare+8)
+		for i := range backing {
+			backing[i] = 0xA5
+		}
+		copy(backing, prefix)
+		dst := backing[:len(prefix):len(prefix)+spare]
+		app := g.AppendWKB(dst)
+		if !bytes.Equal(app, append(append([]byte(nil), prefix...), lib...)) {
+			return h.Failf("wkb/append", "AppendWKB(prefix with %d spare bytes) != prefix||AsBinary() for %s", spare, model)
+		}
+		for i := len(prefix) + spare; i < len(backing); i++ {
+			if backing[i] != 0xA5 {
+				return h.Failf("wkb/append-overrun", "AppendWKB wrote beyond the capacity of its destination (byte %d) for %s", i, model)
+			}
+		}
+	}
 	// (b) library decode is the exact inverse; re-encode reproduces the bytes
 	back, err := geom.UnmarshalWKB(lib, geom.NoValidate{})
 	if err != nil {
